@@ -100,6 +100,8 @@ class Ctx:
 
     def violation(self, what, replay_text, found_input=True, key=None):
         """Registers a violation; writes the replay file. Returns its path."""
+        if len(what) > 700:
+            what = what[:500] + " ...[%d characters omitted]... " % (len(what) - 650) + what[-150:]
         if key is not None:
             # one replay per failure class: later cases of the same class are only counted
             if key in self._keys:
@@ -402,6 +404,17 @@ def parse_cases(path):
     return cases
 
 
+def _limit_child():
+    """A run-away harness (a mutated /repo can loop while allocating) must fail by itself instead of exhausting the
+    machine: 8 GiB of address space per process."""
+    import resource
+    lim = 8 << 30
+    try:
+        resource.setrlimit(resource.RLIMIT_AS, (lim, lim))
+    except (ValueError, OSError):
+        pass
+
+
 def run_parallel(cmds, timeout):
     """Runs shell commands in parallel (at most NCPU at a time). Returns list of (rc, output)."""
     res = [None] * len(cmds)
@@ -413,7 +426,8 @@ def run_parallel(cmds, timeout):
     while nxt < len(cmds) or procs:
         while nxt < len(cmds) and len(procs) < NCPU:
             p = subprocess.Popen(cmds[nxt], shell=True, stdout=subprocess.PIPE, stderr=subprocess.STDOUT,
-                                 universal_newlines=True, errors="replace", env=env)
+                                 universal_newlines=True, errors="replace", env=env,
+                                 start_new_session=True, preexec_fn=_limit_child)
             procs[nxt] = p
             nxt += 1
         done = [i for i, p in procs.items() if p.poll() is not None]
@@ -423,7 +437,10 @@ def run_parallel(cmds, timeout):
         if not done:
             if time.time() > t_end:
                 for i, p in procs.items():
-                    p.kill()
+                    try:
+                        os.killpg(p.pid, 9)      # the shell AND the harness / driver it started
+                    except OSError:
+                        p.kill()
                     res[i] = (124, "[timeout]")
                 procs = {}
                 break
